@@ -169,7 +169,7 @@ func (o *cmC04) nontrivial(m *chainMachine) bool { return o.maxDeployments >= 2 
 var cmLifecycleProfile = cmProfile{weights: map[string]int{
 	"deployCreate": 4, "marketRound": 5, "advance": 5, "provider": 1, "audit": 1,
 	"leaseClose": 2, "bidClose": 3, "deployClose": 2, "leaseWithdraw": 3, "groupStart": 4, "groupPause": 3, "groupClose": 2,
-	"cert": 0, "wrongSigner": 1, "deployDeposit": 1, "withdrawThenClose": 1, "bidCreate": 2, "leaseCreate": 2, "exhaustExactly": 2,
+	"cert": 0, "wrongSigner": 1, "deployDeposit": 1, "withdrawThenClose": 1, "bidCreate": 2, "leaseCreate": 2, "exhaustExactly": 2, "leaseChurn": 4,
 }}
 
 func TestVerif_C04(t *testing.T) {
